@@ -563,9 +563,14 @@ class RelativeJSONPointer:
     def _int_like(self, obj: Any) -> bool:
         if isinstance(obj, int):
             return True
+        # Only canonical decimal integers are array indices. `int()` alone
+        # would also accept "01", "+1", "1_0" and non-ASCII digits.
+        if not isinstance(obj, str) or not RE_ARRAY_INDEX.fullmatch(obj):
+            return False
         try:
             int(obj)
         except ValueError:
+            # More digits than Python is willing to convert.
             return False
         return True
 
